@@ -153,6 +153,14 @@ class quantumEngine(pb.Referenceable):
         pass
 
     @abc.abstractmethod
+    def apply_S(self, qubitNum):
+        """
+        Applies a S gate to the qubits with number qubitNum.
+        :rtype: None
+        """
+        pass
+
+    @abc.abstractmethod
     def apply_T(self, qubitNum):
         """
         Applies a T gate to the qubits with number qubitNum.
